@@ -109,6 +109,13 @@ def queries(o, sd_base, prms, lohis, ops_kw, rng_seed):
     ss = {1: 9, 2: 5, 3: 3}[pdim]
     o.sample_size = ss
     rec('evalpts', lambda: [list(p) for p in o.evalpts])
+    if pdim > 1:
+        def per_dir():
+            for i_, nm in enumerate(('sample_size_u', 'sample_size_v', 'sample_size_w')[:pdim]):
+                setattr(o, nm, ss + 1 + i_)
+            return [list(o.sample_size), len(o.evalpts), list(o.evalpts[-1])]
+        rec('evalpts-per-direction-sizes', per_dir)
+        o.sample_size = ss
     rec('bbox', lambda: [list(b) for b in o.bbox])
     if pdim == 2:
         def tess():
@@ -287,13 +294,16 @@ def check_procs(case, ctx):
             sd = G.rand_shape(rng, pd, dim=3, clamped_only=True, maxextra=2, maxdeg=3, pcls='uniform')
             gs = tuple(rng.randint(3, 6) for _ in range(3))
             ss = rng.randint(3, 5) if pd == 2 else 3
+            vkw = rng.choice([{}, {'tol': 0.11}, {'tol': 0.3}, {'tol': 0.05}, {'use_cubes': True}])     # options must be honoured for every worker count
+            if vkw:
+                ctx.tag('voxelize-options')
 
             def run(k):
                 o = G.build(sd)
                 o.sample_size = ss
                 if k == 1:
-                    return [list(x) if isinstance(x, (list, tuple)) else x for x in voxelize.voxelize(o, grid_size=gs)]
-                return [list(x) if isinstance(x, (list, tuple)) else x for x in voxelize.voxelize(o, grid_size=gs, num_procs=k)]
+                    return [list(x) if isinstance(x, (list, tuple)) else x for x in voxelize.voxelize(o, grid_size=gs, **vkw)]
+                return [list(x) if isinstance(x, (list, tuple)) else x for x in voxelize.voxelize(o, grid_size=gs, num_procs=k, **vkw)]
         base = run(1)
         _read_pool_log(logdir)
         for k in (2, 4, 8):
